@@ -5,6 +5,7 @@ package dastard
 // TestMain and shared helpers for the checks that live in the root package.
 
 import (
+	"encoding/json"
 	"io"
 	"log"
 	"os"
@@ -20,6 +21,9 @@ var (
 
 func vDrainClientMessages() {
 	for u := range clientMessageChan {
+		// like the real status publisher, the consumer reads what it was handed (RunClientUpdater marshals every message): an
+		// object that dastard keeps changing after publishing it is then a data race the detector can see
+		json.Marshal(u.state)
 		vClientMu.Lock()
 		vClientSeen++
 		if len(vClientLog) >= 4096 {
